@@ -89,4 +89,19 @@ func init() {
 	mutant("C13", "dial-close-other-address", "C13.R5", "net.go", "\t\t\td.metrics.close(address)\n", "\t\t\td.metrics.close(network)\n")
 	mutant("C13", "accept-untracked-tls", "C13.R5", "net.go", "\tl.metrics.accept()\n\tconn = conntrack.Builder{", "\tl.metrics.accept()\n\tif l.TLSConfig != nil {\n\t\treturn tls.Server(conn, l.TLSConfig), nil\n\t}\n\tconn = conntrack.Builder{")
 	mutant("C13", "readfrom-counts-rx", "C13.R6", "conntrack/conntrack.go", "\tn, err = c.Conn.(io.ReaderFrom).ReadFrom(r) //nolint:forcetypeassert // It is checked before.\n\tc.o.addTx(uint64(n))", "\tn, err = c.Conn.(io.ReaderFrom).ReadFrom(r) //nolint:forcetypeassert // It is checked before.\n\tc.o.addRx(uint64(n))")
+
+	// ---- C04
+	mutant("C04", "unfix-challenge-restore", "C04.R6", pconn, "\tif len(proxyAuthenticate) > 0 {\n\t\tres.Header[\"Proxy-Authenticate\"] = proxyAuthenticate\n\t}\n\treturn p.writeResponse(res)", "\t_ = proxyAuthenticate\n\treturn p.writeResponse(res)")
+	mutant("C04", "roundtrip-before-checks", "C04.R1", pconn, "\tif err := p.modifyRequest(req); err != nil {\n\t\tlog.Debug(ctx, \"error modifying request\", \"error\", err)\n\t\treturn p.writeErrorResponse(req, err)\n\t}\n\n\t// after stripping", "\tif reqUpType == \"\" {\n\t\tif err := p.modifyRequest(req); err != nil {\n\t\t\tlog.Debug(ctx, \"error modifying request\", \"error\", err)\n\t\t\treturn p.writeErrorResponse(req, err)\n\t\t}\n\t}\n\n\t// after stripping")
+	mutant("C04", "mitm-before-checks", "C04.R1", pconn, "\tif err := p.modifyRequest(req); err != nil {\n\t\tlog.Debug(ctx, \"error modifying CONNECT request\", \"error\", err)\n\t\treturn p.writeErrorResponse(req, err)\n\t}\n\n\tif p.shouldMITM(req) {\n\t\treturn p.handleMITM(req)\n\t}\n", "\tif p.shouldMITM(req) {\n\t\treturn p.handleMITM(req)\n\t}\n\n\tif err := p.modifyRequest(req); err != nil {\n\t\tlog.Debug(ctx, \"error modifying CONNECT request\", \"error\", err)\n\t\treturn p.writeErrorResponse(req, err)\n\t}\n")
+	mutant("C04", "aggregate-errors", "C04.R2", "http_proxy.go", "\ttopg := fifo.NewGroup()\n", "\ttopg := fifo.NewGroup()\n\ttopg.SetAggregateErrors(true)\n")
+	mutant("C04", "group-continues-after-error", "C04.R2", "internal/martian/fifo/fifo_group.go", "\t\t\tif g.aggregateErrors {\n\t\t\t\tmerr = multierr.Append(merr, err)\n\t\t\t\tcontinue\n\t\t\t}\n\n\t\t\treturn err\n\t\t}\n\t}\n\n\treturn merr\n}\n\n// ModifyResponse modifies the request.", "\t\t\tmerr = multierr.Append(merr, err)\n\t\t\tcontinue\n\t\t}\n\t}\n\n\treturn merr\n}\n\n// ModifyResponse modifies the request.")
+	mutant("C04", "stack-before-auth", "C04.R3", "http_proxy.go", "\tif hp.config.DenyDomains != nil {\n\t\ttopg.AddRequestModifier(hp.denyDomains(hp.config.DenyDomains))\n\t}\n\n\t// stack contains", "\t// stack contains").and("http_proxy.go", "\ttopg.AddRequestModifier(stack)\n\ttopg.AddResponseModifier(stack)\n", "\ttopg.AddRequestModifier(stack)\n\ttopg.AddResponseModifier(stack)\n\tif hp.config.DenyDomains != nil {\n\t\ttopg.AddRequestModifier(hp.denyDomains(hp.config.DenyDomains))\n\t}\n")
+	mutant("C04", "localhost-only-with-auth", "C04.R3", "http_proxy.go", "\tif hp.config.ProxyLocalhost == DenyProxyLocalhost {\n\t\ttopg.AddRequestModifier(hp.denyLocalhost())", "\tif hp.config.ProxyLocalhost == DenyProxyLocalhost && hp.config.BasicAuth == nil {\n\t\ttopg.AddRequestModifier(hp.denyLocalhost())")
+	mutant("C04", "auth-or", "C04.R4", "middleware/basic_auth.go", "if !ok || subtle.ConstantTimeCompare([]byte(user), []byte(expectedUser)) != 1 || subtle.ConstantTimeCompare([]byte(pass), []byte(expectedPass)) != 1 {", "if !ok || subtle.ConstantTimeCompare([]byte(user), []byte(expectedUser)) != 1 && subtle.ConstantTimeCompare([]byte(pass), []byte(expectedPass)) != 1 {")
+	mutant("C04", "deny-returns-nil-for-connect", "C04.R4", "http_proxy.go", "\t\tif r.Match(req.URL.Hostname()) {\n\t\t\treturn ErrProxyDenied", "\t\tif req.Method != http.MethodConnect && r.Match(req.URL.Hostname()) {\n\t\t\treturn ErrProxyDenied")
+	mutant("C04", "deny-maps-to-407", "C04.R5", "http_proxy_errors.go", "\t\tcode = http.StatusForbidden\n", "\t\tcode = http.StatusProxyAuthRequired\n")
+	mutant("C04", "challenge-on-403", "C04.R5", "http_proxy_errors.go", "if code == http.StatusProxyAuthRequired {", "if code == http.StatusForbidden {")
+	mutant("C04", "localhost-case-sensitive", "C04.R7", "http_proxy.go", "\thost = strings.ToLower(host)\n\n\tif slices.Contains(hp.localhost, host) {", "\tif slices.Contains(hp.localhost, host) {")
+	mutant("C04", "aliases-not-lowercased", "C04.R7", "http_proxy.go", "\tfor i := range lh {\n\t\tlh[i] = strings.ToLower(lh[i])\n\t}\n", "")
 }
